@@ -381,7 +381,12 @@ func (e *Env) index(b, i CV) CV {
 	case *types.Map:
 		hv := g.mapValHeap(u)
 		k := e.coerce(i, g.mapKeySort(u))
-		return g.cv("(select "+g.readHeap(e.st, hv, b.S)+" "+k.S+")", g.sortOf(u.Elem()), u.Elem())
+		mv := g.cv("(select "+g.readHeap(e.st, hv, b.S)+" "+k.S+")", g.sortOf(u.Elem()), u.Elem())
+		// a value stored in a map is a well-formed value of its type (references and slices point
+		// at objects that exist in the state the map is read in)
+		has := "(select " + g.readHeap(e.st, g.mapHasHeap(u), b.S) + " " + k.S + ")"
+		g.s.assumeUnder(e.pc, imp(has, g.typeInv(e.st, mv.T, u.Elem())))
+		return mv
 	}
 	fail("cannot index %s", b.Ty)
 	return CV{}
